@@ -731,6 +731,9 @@ class RawPeer:
                         self.sock.shutdown(_socket.SHUT_WR)
                     except OSError:
                         pass
+                elif k == "recv_idle":
+                    while self.recv_pdu(op[1]) == "ok":
+                        pass
                 elif k in ("wait_close", "recv_until_close"):
                     while True:
                         st = self.recv_pdu(op[1])
